@@ -86,6 +86,17 @@ func genFileOpt(r *Run, maxRecs int, bigBlock bool) *genFileT {
 		if codec == "null" && r.Rng.Intn(3) == 0 {
 			ct.Codec = ""
 		}
+		if r.Rng.Intn(2) == 0 {
+			// application metadata after the two standard entries: short and long values
+			ct.ExtraMeta = map[string][]byte{}
+			for n := 1 + r.Rng.Intn(3); n > 0; n-- {
+				v := make([]byte, []int{0, 1, 4, 7, 16, 17, 40}[r.Rng.Intn(7)])
+				for i := range v {
+					v[i] = "0123456789abcdefghij"[r.Rng.Intn(20)]
+				}
+				ct.ExtraMeta[fmt.Sprintf("app.%c%d", 'a'+rune(r.Rng.Intn(26)), n)] = v
+			}
+		}
 		for k := 0; k < nrec; {
 			m := 1 + r.Rng.Intn(nrec-k)
 			if r.Rng.Intn(6) == 0 {
@@ -353,6 +364,30 @@ func runC07(r *Run) {
 				r.Fail(id, "callback-error-identity", fmt.Sprintf("callback error at record %d: ReadFile returned class %s (%v), not the callback's own error", k, res.Class, res.Err), d2)
 			} else {
 				checkValues(r, id, gf, res, k+1, d2, "callback-stop")
+			}
+			// ... whatever follows the block the record is in: the callback's error ends the read
+			// before the block's sync marker is looked at
+			if k%2 == 0 {
+				bi, acc := 0, 0
+				for bi = range gf.perBlk {
+					acc += gf.perBlk[bi]
+					if k < acc {
+						break
+					}
+				}
+				end := gf.ct.BlockEnds[bi]
+				flipped := append([]byte{}, gf.file...)
+				flipped[end-3] ^= 0x10
+				for vi, damaged := range [][]byte{gf.file[:end-16], gf.file[:end-9], flipped} {
+					res := readFileImpl(gf.g, damaged, k, false)
+					d3 := withKV(d2, "after_the_block", []string{"file ends after the payload", "file ends inside the sync marker", "sync marker damaged"}[vi])
+					id := addFileCase(r, gf, damaged, k, res, d3, fmt.Sprintf("cb-damaged/%d/%d/%x", vi, k, gf.file))
+					if res.Class != "cb" {
+						r.Fail(id, "callback-error-identity", fmt.Sprintf("callback error at record %d, %s: ReadFile returned class %s (%v), not the callback's own error", k, d3["after_the_block"], res.Class, res.Err), d3)
+					} else {
+						checkValues(r, id, gf, res, k+1, d3, "callback-stop")
+					}
+				}
 			}
 		}
 
